@@ -42,10 +42,13 @@ def run(m):
 def main():
     ap = argparse.ArgumentParser()
     ap.add_argument("--name")
+    ap.add_argument("--file", help="only the edits of mutants_neutral/<file>")
     ap.add_argument("-j", type=int, default=4)
     a = ap.parse_args()
     ms = []
     for p in sorted(glob.glob(os.path.join(HERE, "mutants_neutral", "*.json"))):
+        if a.file and os.path.basename(p) != a.file:
+            continue
         ms += json.load(open(p))
     if a.name:
         ms = [m for m in ms if a.name in m["name"]]
